@@ -3,7 +3,7 @@
    and completeness are checked on the implementation's traces (see DESIGN.md, C02). *)
 From Coq Require Import List ZArith NArith Bool Arith.
 Import ListNotations.
-From I2N Require Import Model.Retry Model.Traverse Model.TraverseRun Proofs.TraverseProofs Proofs.TraverseInv Proofs.TraverseAvail Proofs.TraverseExit Proofs.TraversePath.
+From I2N Require Import Model.Retry Model.Traverse Model.TraverseRun Proofs.TraverseProofs Proofs.TraverseInv Proofs.TraverseAvail Proofs.TraverseExit Proofs.TraversePath Proofs.TraverseUid Proofs.TraverseExitN.
 Local Open Scope nat_scope.
 
 (* no pick from an exhausted node: the loop picks a child only of a node that is not cleanup-ready
@@ -62,3 +62,16 @@ Theorem C02_no_path_errors : forall g p sched evs v c, pwf_b g = true ->
   In evs (snd (run_schedule g (init_state g p) sched)) -> In (EFail v c) evs -> c = 3%N \/ c = 5%N \/ c = 6%N.
 Proof. exact no_path_errors_b. Qed.
 Print Assumptions C02_no_path_errors.
+
+(* completeness at exit for ANY number of workers, for EVERY graph meeting ewf_b (checked on the exported graphs), pool
+   population, schedule and outcome assignment: once worker v has left its loop, every ordinary test of v that the root
+   reaches through child edges over such tests (reachN) has all its own children dropped by v, and if it saves no state (a
+   leaf test; no copy of it an object root) some copy of its class has a result entry: it was executed, or is being
+   executed, by some worker.  PARTIAL: "has a result entry" is not yet "has a definite status". *)
+Theorem C02_exit_means_done_any_workers : forall g p sched v c,
+  ewf_b g = true -> let r := run_schedule g (init_state g p) sched in
+  In (EExit v) (concat (snd r)) -> reachN g v c ->
+  cleanup_ready g (fst r) c v = true /\
+  (stateful (nd g c) = false -> nonobjc g c -> shared_results g (fst r) c <> []).
+Proof. intros g p sched v c Hb. apply exit_means_doneN. now apply ewf_b_sound. Qed.
+Print Assumptions C02_exit_means_done_any_workers.
